@@ -85,6 +85,18 @@ type c09Scenario struct {
 }
 
 func c09Gen(rng *rand.Rand, idx int) c09Scenario {
+	if idx%10 == 9 {
+		// flap storm: every target changes state at every probe tick, all at the same instant, so
+		// that their state-change notifications run concurrently; requests between all ticks
+		sc := c09Scenario{Idx: idx, Horizon: 120}
+		for i := 0; i < 4+rng.IntN(3); i++ {
+			sc.Targets = append(sc.Targets, c09Target{Name: fmt.Sprintf("h%d-t%d:80", idx%5, i), Pattern: "flap", A: 1})
+		}
+		for k := 1; k < sc.Horizon; k++ {
+			sc.Bursts = append(sc.Bursts, c09Burst{K: k, N: 2 + rng.IntN(3), Conc: k%3 == 0})
+		}
+		return sc
+	}
 	sc := c09Scenario{Idx: idx, Horizon: 14 + rng.IntN(30)}
 	nt := 1 + rng.IntN(5)
 	for i := 0; i < nt; i++ {
